@@ -80,7 +80,9 @@ pub fn judge(input: &[u8], frame: &[u8], level: CompressionLevel, tag: &str) -> 
 /// compress + judge; a panic in the compressor is a C02 finding
 pub fn check(input: &[u8], level: CompressionLevel, tag: &str) -> (Vec<Finding>, Option<Walk>, Vec<u8>) {
     match guarded(|| compress_to_vec(input, level)) {
-        Err(p) => (vec![Finding { prop: "C02", identity: format!("panic:{}", p.rsplit(" @ ").next().unwrap_or("")), what: format!("{}: compressing a {}-byte input panicked: {p}", level_name(level), input.len()) }], None, vec![]),
+        // a panic is a finding for both properties that share these executions: C02 (no frame to decode) and C15
+        // ("for every input the emitted frame is well-formed": none is emitted)
+        Err(p) => (["C02", "C15"].into_iter().map(|prop| Finding { prop, identity: format!("panic:{}", p.rsplit(" @ ").next().unwrap_or("")), what: format!("{}: compressing a {}-byte input panicked: {p}", level_name(level), input.len()) }).collect(), None, vec![]),
         Ok(frame) => {
             let (f, w) = judge(input, &frame, level, tag);
             (f, w, frame)
